@@ -163,6 +163,16 @@ def run(ctx):
                         "declarations:\n- decl: struct Pair { int ifield; double dfield; };\n- decl: int sumPair(const Pair *arg)\n"
                         "- decl: void bumpPair(Pair *arg +intent(inout))\n- decl: struct Arr { int n; double vals[3]; };\n- decl: double total(const Arr *a)\n")
     descs["gen-structclass"] = ("gen-structclass", sc, [])
+    # a description whose `typemap:` section adjusts BUILT-IN types (the documented way to put mpi.h under a guard), and one
+    # that uses the same types untouched: the adjustment belongs to the first library only
+    tmo, tmu = os.path.join(ctx.bdir, "tmover.yaml"), os.path.join(ctx.bdir, "tmuser.yaml")
+    open(tmo, "w").write("library: tmover\ncxx_header: tmover.hpp\noptions:\n  wrap_python: false\n  wrap_lua: false\n"
+                         "typemap:\n- type: MPI_Comm\n  fields:\n    cpp_if: ifdef USE_MPI\n- type: int64_t\n  fields:\n    cpp_if: ifdef HAVE_INT64\n"
+                         "declarations:\n- decl: void set_comm(MPI_Comm comm)\n  cpp_if: ifdef USE_MPI\n- decl: int64_t big(int64_t a)\n  cpp_if: ifdef HAVE_INT64\n- decl: int small(int a)\n")
+    open(tmu, "w").write("library: tmuser\ncxx_header: tmuser.hpp\noptions:\n  wrap_python: false\n  wrap_lua: false\n"
+                         "declarations:\n- decl: void use_comm(MPI_Comm comm)\n- decl: int64_t wide(int64_t a)\n- decl: int narrow(int a)\n")
+    descs["gen-tm-override"] = ("gen-tm-override", tmo, [])
+    descs["gen-tm-user"] = ("gen-tm-user", tmu, [])
     quick = ctx.tier == "quick"
     gdir = os.path.join(ctx.bdir, "gen")
     os.makedirs(gdir, exist_ok=True)
@@ -183,7 +193,7 @@ def run(ctx):
 
     fails = []
     from concurrent.futures import ThreadPoolExecutor
-    pool = [n for n in POOL_Q + ["gen-many", "gen-structclass"] if n in descs]
+    pool = [n for n in POOL_Q + ["gen-many", "gen-structclass", "gen-tm-override", "gen-tm-user"] if n in descs]
     names_all = sorted(descs)
     # ---- fresh reference runs
     ref_names = pool if quick else names_all
@@ -228,6 +238,8 @@ def run(ctx):
             hist.append(["forward", "none"])
             hist.append(["forward", "forward"])          # the same description twice: nothing of the first run is remembered
             hist.append(["none", "forward", "forward"])
+        hist.append(["gen-tm-override", "gen-tm-user"])
+        hist.append(["gen-tm-user", "gen-tm-override", "gen-tm-user"])
         hist.append(["tutorial", "clibrary"])
         hist.append(["pointers-cxx", "pointers-c", "pointers-cxx"])
         # the same description in both languages, both orders (language specific statement clauses)
